@@ -145,7 +145,7 @@ class _Env:
             return self.str_lit()
         if cls == "tup":
             k = d(st.integers(1, 3))
-            return M.tup([self.term("num", prefer_ident=False) for _ in range(k)])
+            return M.tup([self.term("num", prefer_ident=d(st.booleans())) for _ in range(k)])
         raise ValueError(cls)
 
     def cmp(self, ops):
